@@ -1404,6 +1404,8 @@ class Engine:
         return self.binop(e.op, l, r)
 
     def binop(self, op, l, r, inplace=False):
+        if isinstance(l, str) and isinstance(op, ast.Mod):
+            return l        # printf-style formatting of a message: the text is not modelled (only used in exception / warning messages)
         if isinstance(l, Model):
             res = l.m_binop(self, op, r, False)
             if res is not NotImplemented:
